@@ -80,6 +80,8 @@ def excluded(excl, c, fn, cfg):
             continue
         if e.get('function_regex') and not re.search(e['function_regex'], ident):
             continue
+        if e.get('except_regex') and re.search(e['except_regex'], c.family + ' ' + ident):
+            continue
         if e.get('configurations') and cfg not in e['configurations']:
             continue
         return e
